@@ -415,7 +415,7 @@ impl Property for C14 {
 /// session process, are awaited by it, or receive the handle: the process sleeps between lines, it has
 /// not terminated, and its file must stay open and usable until the handle is given away.
 fn repl_owner(rng: &mut Rng) -> Scenario {
-    let mut ops = vec![ClientOp::Line { session: 0, src: format!("{KEEPER}, f = [\"/repl\" .0, 577, 420] __file_open__, w0 = [f, 0, 0x01020304] __file_write__") }];
+    let mut ops = vec![ClientOp::Line { session: 0, src: format!("{}, {KEEPER}, f = [\"/repl\" .0, 577, 420] __file_open__, w0 = [f, 0, 0x01020304] __file_write__", super::c04::SPIN) }];
     let mut h = crate::rng::Fnv::default();
     h.u64(0x7e91);
     let n = 1 + rng.usize(3);
@@ -432,10 +432,22 @@ fn repl_owner(rng: &mut Rng) -> Scenario {
         ops.push(ClientOp::Line { session: 0, src: line });
         ops.push(ClientOp::Line { session: 0, src: format!("d{i} = [f, 0, {}] __file_read__, d{i} __binary_length__", 1 + rng.usize(4)) });
     }
-    if rng.chance(1, 2) {
-        // finally the handle goes to a keeper, which reads it and finishes (closing it)
-        ops.push(ClientOp::Line { session: 0, src: "k = 0 @keeper, f k, !k".to_string() });
-        h.u64(0xfe);
+    match rng.below(3) {
+        0 => {
+            // finally the handle goes to a keeper, which reads it and finishes (closing it)
+            ops.push(ClientOp::Line { session: 0, src: "k = 0 @keeper, f k, !k".to_string() });
+            h.u64(0xfe);
+        }
+        1 => {
+            // or the session FAILS while it still owns the file, and a child awaits it afterwards: a
+            // persistent process that has failed is dead for good (it is never resumed), so its
+            // resources are closed when the failure is reported
+            ops.push(ClientOp::Line { session: 0, src: format!("wq = @{{ z = ! [{}], !@! }}, w = [{}, 0] spin, [1, 0] __integer_divide__", *rng.pick(&[30u32, 120, 400]), *rng.pick(&[0u32, 20, 200])) });
+            // a second session lets the awaiter's sleep run out and the report arrive
+            ops.push(ClientOp::Line { session: 1, src: "z = ! [900], Ok".to_string() });
+            h.u64(0xfd);
+        }
+        _ => {}
     }
     Scenario {
         family: "c14-repl-owner".into(),
@@ -769,11 +781,8 @@ impl Monitor for ResMonitor {
             }
             let Some(o) = self.owner.get(&r).copied() else { continue };
             if Self::terminated(world, o) {
-                // the REPL process never terminates (it sleeps between lines): exclude persistent processes
-                let persistent = world.worker_of(o).is_some_and(|w| world.workers[w].verif_executor().get_process(o).is_some_and(|p| p.persistent));
-                if persistent {
-                    continue;
-                }
+                // (a persistent process - the REPL's - that sleeps between lines is not terminated, see
+                // `terminated`; one that has FAILED is: it is never resumed)
                 // never awaited at all (the known finding), awaited but its completion never reported to the
                 // environment, or reported and still not closed
                 let cause = if self.reported.contains(&o) {
